@@ -1,6 +1,7 @@
 package c14
 
 import (
+	"fmt"
 	"os"
 	"testing"
 
@@ -26,9 +27,46 @@ func TestCheck(t *testing.T) {
 	dir := scratchDir(t)
 	if os.Getenv("C14_ONLY") == "" || os.Getenv("C14_ONLY") == "seq" {
 		sequential(r, dir)
+		naturalOrder(r)
 	}
 	if os.Getenv("C14_ONLY") == "" || os.Getenv("C14_ONLY") == "fields" {
 		fieldFidelity(r, dir)
+	}
+	if os.Getenv("C14_ONLY") == "" || os.Getenv("C14_ONLY") == "conc" {
+		concurrent(r)
+	}
+	if os.Getenv("C14_ONLY") == "" || os.Getenv("C14_ONLY") == "atomic" {
+		atomicReplace(r, dir)
+	}
+	if os.Getenv("C14_ONLY") == "" {
+		for _, pt := range ownPoint {
+			r.Require("hook_hits:"+pt, 100)
+			r.Require("cleanup_order:"+pt+":ran_before_next_sync", 50)
+			r.Require("cleanup_order:"+pt+":ran_after_next_sync", 50)
+		}
+		r.Require("key_changed_owner", 100)
+		r.Require("syncs_full", 100)
+		r.Require("syncs_incremental", 500)
+		r.Require("restart_checks", 100)
+		r.Require("restart_found_compared", 1000)
+		r.Require("restarts_continued", 20)
+		r.Require("restart_field_cases", 80)
+		r.Require("field_variants_seen", 40)
+		r.Require("conc_rounds", 8)
+		r.Require("conc_lookups_overlapping_sync", 100)
+		r.Require("porcupine_ok", 30)
+		r.Require("natural_order_lookups", 1000)
+		r.Require("atomic_kills", 12)
+		r.Require("atomic_kills:random", 8)
+		if r.BucketGet("strace_usable") > 0 {
+			r.Require("atomic_kills:strace", 3)
+		}
+	}
+	if n := r.BucketGet("model_ambiguous"); n > 0 {
+		r.Inconclusive(fmt.Sprintf("the generator produced %d keys with two live owners", n))
+	}
+	if n := r.BucketGet("quiesce_timeouts"); n > 0 {
+		r.Inconclusive(fmt.Sprintf("%d time-outs while waiting for clean-up goroutines to park or finish", n))
 	}
 }
 
